@@ -104,7 +104,8 @@ def run(prop, tier):
                 if not np.array_equal(np.isfinite(v), np.isfinite(r_)):
                     V.violation("C20 NaN pattern depends on the rest of the request", dict(model=mname, request=rq, series=s))
                     continue
-                records.append(dict(id=rid, kind="same", a=FX.fixseq(v[ok][tix]), b=FX.fixseq(r_[ok][tix])))
+                tix_ok = [t_ for t_ in tix if ok[t_]]  # (sampled time indices at which the series is defined)
+                records.append(dict(id=rid, kind="same", a=FX.fixseq(v[tix_ok]), b=FX.fixseq(r_[tix_ok])))
                 index[rid] = dict(model=mname, request={k: rq[k] for k in ("outputs", "pops", "opt")}, series=s, got=[float(x) for x in v[tix]], alone=[float(x) for x in r_[tix]])
                 rid += 1
         # arithmetic of the references against their parts (one record per time index)
